@@ -125,6 +125,11 @@ type repoOp struct {
 // model in lock-step.
 func c10History(cc *run.Case, kind string, nops, hidx int) bool {
 	r := cc.R
+	// The zone the process runs in must not matter: stored dates are whole UTC
+	// days whatever time.Local is.
+	oldLocal := time.Local
+	time.Local = []*time.Location{time.UTC, time.FixedZone("UTC+1", 3600), time.FixedZone("UTC-5", -5*3600), time.FixedZone("UTC+9", 9*3600)}[hidx%4]
+	defer func() { time.Local = oldLocal }()
 	repo, cleanup, err := newRepo(kind)
 	if err != nil {
 		cc.Inconclusive("cannot create repository: " + err.Error())
@@ -258,6 +263,14 @@ func c10History(cc *run.Case, kind string, nops, hidx int) bool {
 			}
 			if bound.Before(day0) {
 				bound = day0
+			}
+			switch r.Intn(8) {
+			case 0: // a bound with a time of day: snapshots dated that day (at midnight) are BEFORE it
+				bound = bound.Add(time.Duration(r.Range(1, 23)) * time.Hour)
+			case 1: // the same instant expressed in another zone
+				bound = bound.In(time.FixedZone("", r.Pick(-5, 1, 9)*3600))
+			case 2: // a bound a second before midnight
+				bound = bound.Add(-time.Second)
 			}
 			hist = append(hist, repoOp{Op: "getSince", Name: name, Bound: bound.Format("2006-01-02")})
 			c, err := repo.GetSince(name, bound)
